@@ -251,7 +251,8 @@ func (g *G) text() string {
 		t += r.Pick(" é", " 名前", " 😀", "ü")
 	}
 	if g.P.Escapes && r.Intn(3) == 0 {
-		t += r.Pick(" a#b", " {x}", " a\\b", " <<c", " x//y", " a<b", " a/b", " >}", " \\[z\\]")
+		// (escaped brackets alone and together: the lexer passes them through, the markup pass resolves them)
+		t += r.Pick(" a#b", " {x}", " a\\b", " <<c", " x//y", " a<b", " a/b", " >}", " \\[z\\]", " x\\]y", " p\\[q", " \\] \\]", " e\\]")
 	}
 	return t
 }
@@ -261,7 +262,9 @@ func (g *G) line(withCond bool) *ast.Line {
 	ln := &ast.Line{}
 	t := g.text()
 	if g.P.Markup && r.Intn(3) == 0 {
-		t += r.Pick(" [b]bold[/b]", " [a k=1]x[/a] y", " [wave/] z", " [i]a [b]c[/b][/] d", " [b]é[/b]")
+		t += r.Pick(" [b]bold[/b]", " [a k=1]x[/a] y", " [wave/] z", " [i]a [b]c[/b][/] d", " [b]é[/b]",
+			" [nomarkup][b]raw[/b][/nomarkup] n", " [select value=f m=he f=she]x[/select] s", " [plural value=2 one=\"% apple\" other=\"% apples\"/] p",
+			" [ordinal value=3 one=%st two=%nd few=%rd other=%th]x[/ordinal] o", " [nomarkup]é [x][/] w")
 	}
 	ln.Els = append(ln.Els, ast.El{Text: t})
 	for k := r.Intn(3); k > 0; k-- {
